@@ -6,6 +6,7 @@ package main
 
 import (
 	"fmt"
+	"io/ioutil"
 	"os"
 	"path/filepath"
 	"sort"
@@ -113,6 +114,7 @@ func runHistories(c *ctx, which string) error {
 		nops := 3 + c.rng.Intn(10)
 		var ops []string
 		var obs []string
+		seenTab := map[string]bool{}
 		for j := 0; j < nops; j++ {
 			var o hop
 			ntab := len(readList(dir))
@@ -266,6 +268,16 @@ func runHistories(c *ctx, which string) error {
 			}()
 			hist[o.kind+":"+status]++
 			obs = append(obs, observe(st, dir, status))
+			// every table file the stack code produced (Add, compaction) is judged by the spec decoder
+			for _, n := range readList(dir) {
+				if !seenTab[n] {
+					seenTab[n] = true
+					if data, err := ioutil.ReadFile(filepath.Join(dir, n)); err == nil {
+						c.emit("wellformed", hx(data), "ok")
+						hist["wellformed-files"]++
+					}
+				}
+			}
 			if status == "panic" {
 				break
 			}
